@@ -1441,6 +1441,19 @@ def _b_minmax(kind):
     def f(*a, **kw):
         if len(a) == 1:
             a = list(a[0])
+        if kw.get("key") is not None:
+            # key function: concrete keys only (e.g. the closest tabulated size); anything symbolic is refused, never ignored
+            itp = _GETATTR_INTERP[0]
+            keys = [itp.apply(kw["key"], (x,), {}) for x in a]
+            if any(is_z3(k) for k in keys) or not a:
+                raise Unsupported(f"{kind} with a key function over symbolic values")
+            best = 0
+            for i in range(1, len(a)):
+                if (keys[i] < keys[best]) if kind == "min" else (keys[i] > keys[best]):
+                    best = i
+            return a[best]
+        if set(kw) - {"key", "default"}:
+            raise Unsupported(f"{kind} with keyword arguments {sorted(kw)}")
         r = a[0]
         for x in a[1:]:
             r = scalar_binop(kind, r, x)
